@@ -42,6 +42,10 @@ on two lines</rect>"#,
     r#"<title>t &amp; u</title><desc>d</desc><a href="http://x/?a=1&amp;b=2"><rect wh="3"/></a>"#,
     r#"<path d="M0 0 h5 v5 z" class="d-thick"/><ellipse cxy="9 9" rxy="3 2" text="e" text-loc="b"/>"#,
     r#"<rect wh="20 10" text="vert" class="d-text-vertical"/><rect xy="^|h" wh="5" text="x" text-lsp="2" text-dy="1"/>"#,
+    r#"<rect wh="10" _="request ---&gt; server &lt;--- reply" __="a ----- b --&gt; &lt;!-- c"/>"#,
+    r#"<!-- <rect text="x &lt; y"/> ]]&gt; --><rect wh="3" text="]]&gt; --&gt; &lt;!--"/>"#,
+    r#"<svg xmlns="http://www.w3.org/2000/svg" width="{{width}}" class="tpl {{kind}} a  a"><g data-x="{{1 +}}">t  
+ u</g></svg>"#,
 ];
 
 const PRE: &[&str] = &["", "<!-- pre &amp; -->\n", "<?xml version=\"1.0\" encoding=\"UTF-8\"?>\n<!DOCTYPE svg>\n", "<?xml-stylesheet href=\"s.css\"?>"];
